@@ -114,10 +114,10 @@ func Check(res *fw.Result, h *subrig.History) {
 
 		if !s.Sync && s.SubErr() != "" {
 			if len(lg.Calls) > 0 {
-				res.Violate("writer-call-unregistered", fmt.Sprintf("%s: subscribe returned %q but the writer was called %d times", sname, s.SubErr(), len(lg.Calls)), nil, witness(nil))
+				violate(res, "writer-call-unregistered", fmt.Sprintf("%s: subscribe returned %q but the writer was called %d times", sname, s.SubErr(), len(lg.Calls)), nil, witness(nil))
 			}
 			if len(dones) > 0 {
-				res.Violate("completion-count", fmt.Sprintf("%s: subscribe failed but completion was signalled", sname), map[string]string{"n": "unregistered"}, witness(nil))
+				violate(res, "completion-count", fmt.Sprintf("%s: subscribe failed but completion was signalled", sname), map[string]string{"n": "unregistered"}, witness(nil))
 			}
 			continue
 		}
@@ -125,14 +125,14 @@ func Check(res *fw.Result, h *subrig.History) {
 		// completion signalled exactly once by quiescence
 		switch {
 		case idKnown && len(dones) > 1:
-			res.Violate("completion-count", fmt.Sprintf("%s (%d/%d): completion signalled %d times", sname, id.ConnectionID, id.SubscriptionID, len(dones)), map[string]string{"n": "many"}, witness(nil))
+			violate(res, "completion-count", fmt.Sprintf("%s (%d/%d): completion signalled %d times", sname, id.ConnectionID, id.SubscriptionID, len(dones)), map[string]string{"n": "many"}, witness(nil))
 		case idKnown && len(dones) == 0 && !h.Quiet.StillBusy && (!s.Sync || s.SyncErr() == ""):
-			res.Violate("completion-missing", fmt.Sprintf("%s (%d/%d): completion never signalled although the history is quiescent", sname, id.ConnectionID, id.SubscriptionID), nil, witness(map[string]any{"pending": h.Quiet.Pending}))
+			violate(res, "completion-missing", fmt.Sprintf("%s (%d/%d): completion never signalled although the history is quiescent", sname, id.ConnectionID, id.SubscriptionID), nil, witness(map[string]any{"pending": h.Quiet.Pending}))
 		case !idKnown:
 			unknownSync++
 		}
 		if s.Sync && s.SyncRet.Load() == 0 && !h.Quiet.StillBusy {
-			res.Violate("completion-missing", fmt.Sprintf("%s: the synchronous call never returned", sname), map[string]string{"api": "sync"}, witness(nil))
+			violate(res, "completion-missing", fmt.Sprintf("%s: the synchronous call never returned", sname), map[string]string{"api": "sync"}, witness(nil))
 		}
 		if len(dones) == 1 {
 			res.Count("completions_exactly_once", 1)
@@ -149,7 +149,7 @@ func Check(res *fw.Result, h *subrig.History) {
 				if len(dones) == 0 {
 					how = "return of the synchronous call"
 				}
-				res.Violate("writer-call-after-done", fmt.Sprintf("%s: writer.%s at t=%d after %s at t=%d", sname, c.Kind, c.Ts, how, D),
+				violate(res, "writer-call-after-done", fmt.Sprintf("%s: writer.%s at t=%d after %s at t=%d", sname, c.Kind, c.Ts, how, D),
 					map[string]string{"call": c.Kind.String()}, witness(map[string]any{"subscriber": sname, "call": c.Kind.String(), "call_ts": c.Ts, "done_ts": D}))
 				break
 			}
@@ -161,15 +161,15 @@ func Check(res *fw.Result, h *subrig.History) {
 		}
 		res.Count("writer_calls_checked", int64(len(lg.Calls)))
 		if lg.Overlaps > 0 {
-			res.Violate("writer-overlap", fmt.Sprintf("%s: %d writer calls overlapped another call on the same writer", sname, lg.Overlaps), nil, witness(map[string]any{"at": lg.OverlapT}))
+			violate(res, "writer-overlap", fmt.Sprintf("%s: %d writer calls overlapped another call on the same writer", sname, lg.Overlaps), nil, witness(map[string]any{"at": lg.OverlapT}))
 		}
 		if terminals > 1 {
-			res.Violate("double-terminal", fmt.Sprintf("%s: %d terminal writer calls (Complete/Error)", sname, terminals), nil, witness(nil))
+			violate(res, "double-terminal", fmt.Sprintf("%s: %d terminal writer calls (Complete/Error)", sname, terminals), nil, witness(nil))
 		}
 		if !s.HB {
 			for _, c := range lg.Calls {
 				if c.Kind == subrig.CHeartbeat {
-					res.Violate("heartbeat-not-enabled", fmt.Sprintf("%s: Heartbeat on a subscription without SendHeartbeat", sname), nil, witness(nil))
+					violate(res, "heartbeat-not-enabled", fmt.Sprintf("%s: Heartbeat on a subscription without SendHeartbeat", sname), nil, witness(nil))
 					break
 				}
 			}
@@ -183,17 +183,17 @@ func Check(res *fw.Result, h *subrig.History) {
 			res.Count("messages_checked", 1)
 			eid, key, ok := subrig.ParseDelivered(m.Data)
 			if !ok || eid < 1 || eid > len(h.Events) {
-				res.Violate("delivery.garbled", fmt.Sprintf("%s: delivered message is not the rendering of any event: %s", sname, trim(m.Data, 200)), nil, witness(nil))
+				violate(res, "delivery.garbled", fmt.Sprintf("%s: delivered message is not the rendering of any event: %s", sname, trim(m.Data, 200)), nil, witness(nil))
 				continue
 			}
 			e := h.Events[eid-1]
 			if e.Key != s.Key || (key != "" && key != h.Keys[s.Key].Name) {
-				res.Violate("delivery.cross-talk", fmt.Sprintf("%s (key %s) received event e%d of key %s", sname, h.Keys[s.Key].Name, eid, h.Keys[e.Key].Name), nil, witness(map[string]any{"message": m.Data}))
+				violate(res, "delivery.cross-talk", fmt.Sprintf("%s (key %s) received event e%d of key %s", sname, h.Keys[s.Key].Name, eid, h.Keys[e.Key].Name), nil, witness(map[string]any{"message": m.Data}))
 				continue
 			}
 			want := subrig.Expected(s.Variant, e.ID, h.Keys[e.Key].Name, e.G)
 			if m.Data != want {
-				res.Violate("delivery.mismatch", fmt.Sprintf("%s: message for e%d differs from its solo rendering", sname, eid), nil, witness(map[string]any{"got": m.Data, "want": want}))
+				violate(res, "delivery.mismatch", fmt.Sprintf("%s: message for e%d differs from its solo rendering", sname, eid), nil, witness(map[string]any{"got": m.Data, "want": want}))
 			}
 			if !crossChecked[s.Variant] {
 				crossChecked[s.Variant] = true
@@ -204,27 +204,27 @@ func Check(res *fw.Result, h *subrig.History) {
 				}
 			}
 			if !s.Filter.Pass(e.G) {
-				res.Violate("delivery.filtered-out", fmt.Sprintf("%s (filter %s) received e%d with g=%d", sname, s.Filter, eid, e.G), nil, witness(nil))
+				violate(res, "delivery.filtered-out", fmt.Sprintf("%s (filter %s) received e%d with g=%d", sname, s.Filter, eid, e.G), nil, witness(nil))
 			}
 			if e.Target != nil && e.Target != s {
-				res.Violate("delivery.wrong-target", fmt.Sprintf("%s received e%d addressed to s%d", sname, eid, e.Target.Idx), nil, witness(nil))
+				violate(res, "delivery.wrong-target", fmt.Sprintf("%s received e%d addressed to s%d", sname, eid, e.Target.Idx), nil, witness(nil))
 			}
 			if seen[eid] {
-				res.Violate("delivery.duplicate", fmt.Sprintf("%s received e%d twice", sname, eid), nil, witness(nil))
+				violate(res, "delivery.duplicate", fmt.Sprintf("%s received e%d twice", sname, eid), nil, witness(nil))
 			}
 			seen[eid] = true
 			if e.Ret != 0 && e.Ret < s.SubInv.Load() {
-				res.Violate("delivery.before-subscribe", fmt.Sprintf("%s received e%d which ended (t=%d) before the subscribe call began (t=%d)", sname, eid, e.Ret, s.SubInv.Load()), nil, witness(nil))
+				violate(res, "delivery.before-subscribe", fmt.Sprintf("%s received e%d which ended (t=%d) before the subscribe call began (t=%d)", sname, eid, e.Ret, s.SubInv.Load()), nil, witness(nil))
 			}
 			if D != 0 && e.Call > D {
-				res.Violate("delivery.after-done", fmt.Sprintf("%s received e%d which began (t=%d) after completion (t=%d)", sname, eid, e.Call, D), nil, witness(nil))
+				violate(res, "delivery.after-done", fmt.Sprintf("%s received e%d which began (t=%d) after completion (t=%d)", sname, eid, e.Call, D), nil, witness(nil))
 			}
 			if e.Inst != nil && h.StaleFor(e.Inst.Creator, s) {
-				res.Violate("delivery.stale-instance", fmt.Sprintf("%s received e%d emitted through Start instance i%d whose trigger was gone before %s subscribed", sname, eid, e.Inst.ID, sname),
+				violate(res, "delivery.stale-instance", fmt.Sprintf("%s received e%d emitted through Start instance i%d whose trigger was gone before %s subscribed", sname, eid, e.Inst.ID, sname),
 					map[string]string{"stale_instance": "true"}, witness(nil))
 			}
 			if e.Ret != 0 && e.Ret < maxCall {
-				res.Violate("delivery.out-of-order", fmt.Sprintf("%s received e%d after e%d although e%d ended (t=%d) before e%d began (t=%d)", sname, eid, maxCallEv, eid, e.Ret, maxCallEv, maxCall), nil, witness(nil))
+				violate(res, "delivery.out-of-order", fmt.Sprintf("%s received e%d after e%d although e%d ended (t=%d) before e%d began (t=%d)", sname, eid, maxCallEv, eid, e.Ret, maxCallEv, maxCall), nil, witness(nil))
 			}
 			if e.Call > maxCall {
 				maxCall, maxCallEv = e.Call, eid
@@ -256,7 +256,7 @@ func Check(res *fw.Result, h *subrig.History) {
 			}
 			res.Count("must_obligations", 1)
 			if !seen[e.ID] {
-				res.Violate("delivery.missing", fmt.Sprintf("%s did not receive e%d (g=%d, filter %s): it was attached before the event began (t=%d) and nothing that may remove it began before the event ended (t=%d)", sname, e.ID, e.G, s.Filter, e.Call, e.Ret),
+				violate(res, "delivery.missing", fmt.Sprintf("%s did not receive e%d (g=%d, filter %s): it was attached before the event began (t=%d) and nothing that may remove it began before the event ended (t=%d)", sname, e.ID, e.G, s.Filter, e.Call, e.Ret),
 					nil, witness(map[string]any{"first_removal": rem}))
 			}
 		}
@@ -266,16 +266,32 @@ func Check(res *fw.Result, h *subrig.History) {
 	seenConn := map[int64]bool{}
 	for _, d := range orph {
 		if seenConn[d.Conn] {
-			res.Violate("completion-count", fmt.Sprintf("completion signalled twice for connection %d", d.Conn), map[string]string{"n": "many"}, witness(nil))
+			violate(res, "completion-count", fmt.Sprintf("completion signalled twice for connection %d", d.Conn), map[string]string{"n": "many"}, witness(nil))
 		}
 		seenConn[d.Conn] = true
 	}
 	if len(orph) > unknownSync {
-		res.Violate("completion-count", fmt.Sprintf("%d completion events for %d synchronous subscribers with unknown identifier", len(orph), unknownSync), map[string]string{"n": "orphans"}, witness(nil))
+		violate(res, "completion-count", fmt.Sprintf("%d completion events for %d synchronous subscribers with unknown identifier", len(orph), unknownSync), map[string]string{"n": "orphans"}, witness(nil))
 	}
 	for _, a := range h.Anomalies {
 		if strings.Contains(a, "registered under") {
-			res.Violate("registration-id", a, nil, witness(nil))
+			violate(res, "registration-id", a, nil, witness(nil))
 		}
 	}
+}
+
+// violate reports at most three violations per kind and case (a broken tree can produce thousands
+// in one history); the rest is counted.
+func violate(res *fw.Result, kind, msg string, match map[string]string, detail any) {
+	n := 0
+	for _, v := range res.Violations {
+		if v.Kind == kind {
+			n++
+		}
+	}
+	if n >= 3 {
+		res.Count("violations_not_listed", 1)
+		return
+	}
+	res.Violate(kind, msg, match, detail)
 }
